@@ -72,6 +72,48 @@ func (a *Act) callWith(instr ssa.Instruction, c *ssa.CallCommon, rt types.Type, 
 	key := relName(callee)
 	a.callCnt[key]++
 	k := a.callCnt[key]
+	res := a.callStatic(instr, c, rt, args, callee, name, key, k)
+	a.afterCall(fmt.Sprintf("%s#%d", key, k), res, instr)
+	return res
+}
+
+// afterCall processes assert / assume-input clauses attached to "after-call f#k".
+func (a *Act) afterCall(label string, res Val, instr ssa.Instruction) {
+	if a.contract == nil || a.mode == modeSpec {
+		return
+	}
+	mk := func() *Env {
+		e := a.baseEnv(a.cur)
+		blk := a.curBlk
+		e.resolve = func(name string) (Val, bool) { return a.resolveDom(blk, name, a.cur) }
+		if res.Comp {
+			for i, f := range res.Fields {
+				e.vars[fmt.Sprintf("result%d", i)] = f
+			}
+		} else if res.Sort != "" {
+			e.vars["result"] = res
+			e.vars["result0"] = res
+		}
+		return e
+	}
+	for _, as := range a.contract.Asserts {
+		if as.Label == "after-call "+label && !a.dry {
+			lbl := as.Name
+			if a.label != "" {
+				lbl = a.label + lbl
+			}
+			a.vc.oblige("assert", lbl, a.cur.reach, mk().evalBool(as.Expr), as.Src, a.posOf(instr.Pos()))
+		}
+	}
+	for _, as := range a.contract.Inputs {
+		if as.Label == "after-call "+label {
+			a.vc.assume(a.cur.reach, mk().evalBool(as.Expr))
+			a.vc.assumed["input assumption ("+a.vc.funcKey+" "+as.Name+"): "+as.Src] = true
+		}
+	}
+}
+
+func (a *Act) callStatic(instr ssa.Instruction, c *ssa.CallCommon, rt types.Type, args []Val, callee *ssa.Function, name, key string, k int) Val {
 	ct := a.vc.eng.contracts.Lookup(pkgName(callee), key)
 	if ct != nil && !ct.Inline {
 		ct.Used = true
@@ -84,16 +126,34 @@ func (a *Act) callWith(instr ssa.Instruction, c *ssa.CallCommon, rt types.Type, 
 		return a.inlineCall(instr, callee, args, nil)
 	}
 	if pureExtern[name] || (callee.Pkg != nil && pureExternPkg[callee.Pkg.Pkg.Path()]) {
-		a.vc.assumed["pure-external: "+name] = true
-		return a.opaque(instr, name, rt, args, false)
+		a.vc.assumed["external function assumed not to touch verified memory and not to panic; result unconstrained (fresh): "+name] = true
+		pre := a.alloc(a.cur)
+		v := a.opaque(instr, name, rt, args, false)
+		// returned slices / pointers are freshly allocated (or nil)
+		na := a.vc.declare("alloc_x", SortInt)
+		a.vc.assume("true", app("<=", pre, na))
+		a.cur.mem.m["alloc"] = na
+		for _, f := range flattenVal(v) {
+			if f.T == nil {
+				continue
+			}
+			switch f.T.Underlying().(type) {
+			case *types.Slice:
+				a.vc.assume(a.cur.reach, and(or(app("=", sArr(f.Term), "0"), app(">", sArr(f.Term), pre)), app("<=", sArr(f.Term), na), app("wf-slice", f.Term)))
+			case *types.Pointer, *types.Map, *types.Chan:
+				a.vc.assume(a.cur.reach, and(or(app("=", f.Term, "0"), app(">", f.Term, pre)), app("<=", f.Term, na)))
+			}
+		}
+		return v
 	}
 	a.vc.assumed["opaque (memory havocked, assumed not to panic): "+name] = true
 	return a.opaque(instr, name, rt, args, true)
 }
 
-var pureExternPkg = map[string]bool{"fmt": false, "strings": true, "strconv": true, "errors": true, "math": true, "unicode": true, "time": true}
+var pureExternPkg = map[string]bool{"strings": true, "strconv": true, "errors": true, "math": true, "unicode": true, "time": true, "bufio": true, "os": true}
 var pureExtern = map[string]bool{
 	"fmt.Sprintf": true, "fmt.Errorf": true, "fmt.Sprint": true, "fmt.Sprintln": true,
+	"fmt.Printf": true, "fmt.Println": true, "fmt.Print": true, "fmt.Fprintf": true, "fmt.Fprintln": true,
 }
 
 func hasLoop(fn *ssa.Function) bool {
@@ -150,14 +210,14 @@ func (a *Act) opaque(instr ssa.Instruction, name string, rt types.Type, args []V
 
 func (a *Act) havocAll(st *State) {
 	al := a.alloc(st)
+	na := a.vc.declare("alloc_hv", SortInt)
+	a.vc.assume("true", app("<=", al, na))
 	for _, k := range st.mem.keys() {
 		if k == "alloc" {
 			continue
 		}
-		st.mem.m[k] = a.vc.declare("hv_"+k, a.vc.comps[k])
+		st.mem.m[k] = a.vc.declareHeap("hv_"+k, a.vc.comps[k], na)
 	}
-	na := a.vc.declare("alloc_hv", SortInt)
-	a.vc.assume("true", app("<=", al, na))
 	st.mem.m["alloc"] = na
 	a.vc.epochs++
 	st.mem.epoch = a.vc.epochs
@@ -232,25 +292,25 @@ func (a *Act) contractCall(instr ssa.Instruction, callee *ssa.Function, ct *Cont
 		}
 	}
 	// frame: havoc what the callee may modify
+	al := a.alloc(pre)
+	na := vc.declare("alloc_c", SortInt)
+	vc.assume("true", app("<=", al, na))
 	e0 := mkEnv(pre, pre, nil)
 	items := a.evalModItems(ct.Modifies, e0)
 	for _, it := range items {
 		for _, c := range a.expandComp(it.Comp) {
 			s := vc.comps[c]
 			if it.All {
-				a.cur.mem.m[c] = vc.declare("hv_"+c, s)
+				a.cur.mem.m[c] = vc.declareHeap("hv_"+c, s, na)
 				continue
 			}
 			a.frameCheckRef(a.cur, c, it.Ref, a.posOf(instr.Pos()))
 			cur := vc.comp(a.cur.mem, c, s)
 			elemSort := Sort(strings.TrimSuffix(strings.TrimPrefix(string(s), "(Array Int "), ")"))
-			fv := vc.declare("hv_"+c, elemSort)
+			fv := vc.declareHeap("hv_"+c, elemSort, na)
 			vc.setComp(a.cur.mem, c, s, sto(cur, it.Ref, fv))
 		}
 	}
-	al := a.alloc(pre)
-	na := vc.declare("alloc_c", SortInt)
-	vc.assume("true", app("<=", al, na))
 	a.cur.mem.m["alloc"] = na
 	// result
 	var res Val
@@ -418,7 +478,7 @@ func (a *Act) builtin(instr ssa.Instruction, b *ssa.Builtin, c *ssa.CallCommon, 
 			if al, ok := sl.X.(*ssa.Alloc); ok {
 				if at, ok := al.Type().(*types.Pointer).Elem().Underlying().(*types.Array); ok && at.Len() == 1 {
 					base := a.val(al)
-					ev := a.loadLoc(a.cur, &Loc{Kind: "elem", Base: base.Term, Idx: "0", Root: "E:" + typeName(el), Owner: el, T: el})
+					ev := a.loadLoc(a.cur, &Loc{Kind: "elem", Base: base.Term, Idx: app("at", "0", "0"), Root: "E:" + typeName(el), Owner: el, T: el})
 					return a.appendOne(a.cur, s, ev, el, a.posOf(instr.Pos()))
 				}
 			}
